@@ -30,6 +30,10 @@ structure St where
   cfg : Cfg := {}
   pkgs : List (List UInt8 × List UInt8) := []
   tmp : List UInt8 := []
+  /-- listed packages: path, name, toObfuscate, garbleActionID, forTest -/
+  lpkgs : List (List UInt8 × List UInt8 × Bool × List UInt8 × List UInt8) := []
+  hidden : List (List UInt8) := []       -- listed, but not a dependency of the current package
+  identPaths : List (List UInt8) := []   -- import paths that are Go identifiers (lower-case)
 
 /-- a handler answers the ops it knows -/
 abbrev Handler := St → List String → Option (St × String)
